@@ -2,6 +2,9 @@ import Drv.Util
 import Drv.ParMap
 import Drv.Names
 import Drv.Key
+import Drv.Cached
+import Drv.Cache
+import Drv.Conc
 import Drv.JsonText
 import Drv.Glue
 import Drv.FS
@@ -29,6 +32,9 @@ def dispatch (j : Json) : Drv.R Json := do
   | "fs" => Drv.FS.handle j
   | "glue" => Drv.Glue.handle j
   | "jsontext" => Drv.JsonText.handle j
+  | "conc" => Drv.Conc.handle j
+  | "cache" => Drv.Cache.handle j
+  | "cached" => Drv.Cached.handle j
   | _ => throw "bad_op"
 
 partial def loop (h : IO.FS.Stream) (out : IO.FS.Stream) : IO Unit := do
